@@ -3,21 +3,42 @@ from checks_path import *  # noqa
 from seq_common import run_seq, replay_seq
 
 PROPERTY = 'C03'
-GEN = ['LogicVerify']
-PROPS = ['SalsaVerif.Props.C03', 'SalsaVerif.Props.GenLogicVerify', 'SalsaVerif.Props.C03Core3']
-EXPLANATION = ('Theorems about the event trace of the Lean engine model: every `exec q` appended by a fetch is justified (no memo, or a '
-               'recorded dependency changed since the last validation), backdating keeps the stamp and shields readers, writing an unread '
-               'input never re-executes. The model\'s WillExecute / DidValidateMemoizedValue sequences are compared for equality with real '
-               'salsa on generated programs x histories.')
-ASSUMPTIONS = ['proved for the Core fragment (plain functions, durable inputs); eviction / untracked / structs are covered by the '
-               'correspondence of later model stages when available']
+GEN = ['LogicVerify', 'LogicStructs']
+PROPS = ['SalsaVerif.Props.C03', 'SalsaVerif.Props.GenLogicVerify', 'SalsaVerif.Props.C03Core3', 'SalsaVerif.Props.GenLogicStructs']
+EXPLANATION = ('Theorems about the event trace of the Lean engine models: every `exec q` appended by a fetch is justified — S2 model `Core` '
+               '(`c03_exec_justified`: no memo, or a recorded dependency changed since the last validation; backdating keeps the stamp and '
+               'shields readers; writing an unread input never re-executes) and S3 model `Core3` (`c03_core3_exec_justified`: + value '
+               'evicted, previous execution untracked, no_eq callee re-executed, evicted callee that fails verification; `c03_strict_false` '
+               'is the LRU boundary witness: with a strict reading that lacks the "evicted" disjunct the statement is false of model and '
+               'code alike). The decision predicates of backdating, shallow/deep verification and tracked-struct re-stamping are regenerated '
+               'from the source on every run and proved equal to the models\' (GenLogicVerify, GenLogicStructs). The models\' WillExecute / '
+               'DidValidateMemoizedValue sequences are compared for EQUALITY with real salsa on generated programs x histories: core '
+               'fragment (`core`), kinds/cells/eviction (`core3`), tracked structs + specify (`spec`, model `CoreSpec`); on the core '
+               'fragment a justification monitor additionally checks every WillExecute against the property\'s list directly.')
+ASSUMPTIONS = ['interned values inside the engine and multi-struct creators have no event-exact model: there the property rests on the value '
+               'oracle only (a spurious re-execution that keeps values right would not be seen)']
 
 def ties(ctx):
     a = 6000 if ctx.tier == 'quick' else 50000
-    return [run_seq(ctx, 'core', a, model='core', corpus='CORE-SEQ')]
+    b = 3000 if ctx.tier == 'quick' else 50000
+    return [run_seq(ctx, 'core', a, model='core', corpus='CORE-SEQ'),
+            run_seq(ctx, 'core3', b, model='core3', seed_offset=14),
+            run_seq(ctx, 'spec', b, model='corespec', corpus='CORESPEC', seed_offset=15)]
 
 def search(ctx, reason):
+    for prof, model, off in (('spec', 'corespec', 88), ('core3', 'core3', 89), ('core', 'core', 87)):
+        t = run_seq(ctx, prof, 100000, model=model, seed_offset=off, tag='search-' + prof)
+        for f in t.failures:
+            if f.kind == 'oracle' and f.key not in listed_keys():
+                return f
+        # for THIS property an event divergence between salsa and the proved model is the failing input itself: the model
+        # executes only when justified (theorem), so a WillExecute the model does not have is an unjustified execution
+        for f in t.failures:
+            if f.kind == 'model' and f.replay:
+                return f
     return None
 
 def replay(ctx, path):
-    return replay_seq(ctx, path, model='core')
+    head = open(path).read()
+    model = 'corespec' if (' mk ' in head or ' sp ' in head) else ('core3' if (' lru ' in head or ' noeq ' in head or ' u0' in head) else 'core')
+    return replay_seq(ctx, path, model=model)
